@@ -26,7 +26,7 @@ FLOORS = {"quick": {"grants": 20000, "advance_checks": 20000, "evictions": 500, 
                        "cancels_waiting": 20000, "cancel_noop_granted": 400, "double_releases": 10000,
                        "nonuser_releases": 6000, "with_exits": 40000, "preempted_causes_checked": 10000,
                        "grants_with_others_waiting": 60000, "evictions_among_equal_keys": 600}}
-GRID = [0, 0, 1, 1, 2, 3, 0.5]
+GRID = [0, 0, 1, 1, 2, 3, 0.5, 3e-10, 5e-10]        # incl. distinct instants closer than any "rounding" grid
 
 
 def plan(tier):
@@ -399,7 +399,86 @@ def one_case(ctx, case):
     return viol, nt
 
 
+def gen_nested(rng):
+    return {"nested": True, "outer": rng.choice(["Resource", "PriorityResource", "PreemptiveResource"]),
+            "outer_cap": rng.randint(1, 2), "nproc": rng.randint(2, 6),
+            "procs": [[{"delay": rng.choice([0, 0, 1, 2, 0.5]), "prio": rng.choice([0, 1, 2, 3]), "hold": rng.choice([1, 2, 3]),
+                        "catch_inside": rng.random() < 0.3} for _ in range(rng.randint(1, 4))] for _ in range(6)]}
+
+
+def run_nested(case, stats):
+    """one process holds two resources in nested with-blocks; the inner one is preemptive and the Interrupt
+    propagates out of both blocks: every context-manager exit must hand its slot on"""
+    K = kern.RealK.load()
+    from onl.sim import Resource, PriorityResource, PreemptiveResource, Interrupt
+    Env = kern.make_monenv(K.Environment)
+    env = Env()
+    outer = {"Resource": Resource, "PriorityResource": PriorityResource, "PreemptiveResource": PreemptiveResource}[case["outer"]](env, case["outer_cap"])
+    inner = PreemptiveResource(env, 1)
+    viol = []
+
+    def bad(m, what, wit=None):
+        if len(viol) < 3:
+            viol.append((m, what, wit))
+
+    def quiescent(e):
+        stats["advance_checks"] += 1
+        for name, res in (("outer", outer), ("inner", inner)):
+            if res.count > res.capacity:
+                bad("capacity-exceeded", "a resource had more users than its capacity", name)
+            if len(res.queue) > 0 and res.count < res.capacity:
+                bad(f"slot-idle-with-waiter[nested,{name}]", "the clock advanced while a request waited and a slot was free "
+                    "(a with-block left by an Interrupt did not hand its slot on)",
+                    {"now": e.now, "resource": name, "kind": type(res).__name__, "waiting": len(res.queue), "users": res.count})
+
+    env.advance_hooks.append(quiescent)
+
+    def user(pid, its):
+        for it in its:
+            yield env.timeout(it["delay"])
+            try:
+                with (outer.request() if case["outer"] == "Resource" else outer.request(priority=1, preempt=False)) as ro:
+                    yield ro
+                    if it["catch_inside"]:
+                        try:
+                            with inner.request(priority=it["prio"]) as ri:
+                                yield ri
+                                yield env.timeout(it["hold"])
+                        except Interrupt:
+                            stats["nested_preemptions"] += 1
+                    else:
+                        with inner.request(priority=it["prio"]) as ri:
+                            yield ri
+                            yield env.timeout(it["hold"])
+            except Interrupt:
+                stats["nested_preemptions"] += 1
+                stats["nested_interrupt_through_both_blocks"] += 1
+
+    for pid in range(case["nproc"]):
+        env.process(user(pid, case["procs"][pid]))
+    try:
+        env.run()
+    except Exception as e:
+        bad(f"exception:{type(e).__name__}@nested", "the run raised", repr(e)[:200])
+    quiescent(env)
+    if outer.count or inner.count or outer.queue or inner.queue:
+        bad("slot-leaked[nested]", "after all processes finished a resource still has users or waiters",
+            {"outer_users": outer.count, "inner_users": inner.count, "outer_waiting": len(outer.queue), "kind": case["outer"]})
+    stats["nested_cases"] += 1
+    return viol
+
+
 def run_shard(ctx):
+    import collections
+    nst = collections.Counter()
+    for j in range(60 if ctx.tier == "quick" else 1500):
+        case = gen_nested(ctx.rng("nested", j))
+        for m, what, wit in run_nested(case, nst):
+            ctx.violation(m, what, wit, case)
+        ctx.case_done(case, nst["nested_interrupt_through_both_blocks"] > 0)
+    for k in ("nested_cases", "nested_preemptions", "nested_interrupt_through_both_blocks"):
+        ctx.count(k, nst[k])
+    ctx.count("advance_checks", nst["advance_checks"])
     for i in ctx.cases(ncases(ctx.tier)):
         case = gen_case(ctx.rng(i))
         viol, nt = one_case(ctx, case)
@@ -409,6 +488,11 @@ def run_shard(ctx):
 
 
 def replay(ctx, case):
+    if case.get("nested"):
+        import collections
+        for m, what, wit in run_nested(case, collections.Counter()):
+            ctx.violation(m, what, wit, case)
+        return
     viol, _ = one_case(ctx, case)
     for m, what, wit in viol:
         ctx.violation(m, what, wit, case)
